@@ -239,6 +239,24 @@ func c08scenarios() []c08scenario {
 			}
 			return w
 		}},
+		{"S9 two colored loggers: multi-line records with a trailing newline next to single-line records", 0, func(th, cp int) *c08world {
+			w := &c08world{rec: &lockedRec{}}
+			ls := []*slog.Entry{c08logger("s9a", "color", w.rec), c08logger("s9b", "color", w.rec), c08logger("s9j", "json", w.rec)}
+			for t := 0; t < th; t++ {
+				var cs []func()
+				for i := 0; i < cp; i++ {
+					t, i := t, i
+					l := ls[t%3]
+					msg := fmt.Sprintf("s9 thread %d call %d", t, i)
+					if (t+i)%2 == 0 {
+						msg += "\nsecond line\nthird line\n"
+					}
+					cs = append(cs, func() { l.Warn(msg, ya("k", t), slog.NewGroupedAttr("g", ya("m", i))) })
+				}
+				w.calls = append(w.calls, cs)
+			}
+			return w
+		}},
 		{"S7 WriteThru with one caller-owned Attrs slice used by all threads", 0, func(th, cp int) *c08world {
 			w := &c08world{rec: &lockedRec{}}
 			l := c08logger("s7", "logfmt", w.rec)
